@@ -166,6 +166,15 @@ def tomo_oracle(args):
         state["rho"] = rho_prep
         first = prep_fn if rep % 2 else (lambda x, r=rho_prep: np.trace(x) * r)
         inter = [first] + [lambda x, ks=ks: sum(k @ x @ k.conj().T for k in ks) for ks in maps]
+        queried = ""
+        if rep >= 1 and args.get("queries", True):
+            # history: the read-only queries of the returned object are used between predictions
+            try:
+                pt.to_linear_map_matrix() if rep % 2 else None
+                pt.quantum_mutual_information()
+                queried = ", after to_linear_map_matrix / quantum_mutual_information on the same object"
+            except Exception:  # noqa: BLE001 — the queries themselves are not the subject here
+                pass
         pred = pt.predict_final_state(inter)
         del inter, first
         # dense reference
@@ -181,7 +190,7 @@ def tomo_oracle(args):
         err = float(np.max(np.abs(pred - red)))
         if err > 2e-4 and worst is None:
             worst = (f"predict_final_state differs from the partial trace of the exact evolution by {err:.3e} (L={L}, segments={segs}, "
-                     f"solver={solver}, prediction number {rep + 1} from the same process tensor, held-out preparation with mixing {mix:.2f})")
+                     f"solver={solver}, prediction number {rep + 1} from the same process tensor{queried}, held-out preparation with mixing {mix:.2f})")
     return worst
 
 
